@@ -1,0 +1,66 @@
+//go:build verif
+// +build verif
+
+package gmtls
+
+import (
+	"encoding/binary"
+	"unsafe"
+)
+
+// Verification hooks (build tag `verif`).  Every hook is called at the linearisation point of
+// the state change it reports, while the lock that protects that state is held (the in/out
+// half-connection mutex), after the change and before it can be observed by anyone else.
+// VerifSink is nil unless a harness installs it.
+
+type VerifEvent struct {
+	HC    uintptr // identifies the half connection
+	Ev    string  // "enc", "dec", "ccs", "seterr"
+	Seq   uint64  // sequence number BEFORE the operation
+	Typ   int     // record type
+	IV    []byte  // explicit IV / nonce as sent on the wire (enc only)
+	Len   int     // record length on the wire (enc) / payload length (dec)
+	OK    bool    // dec: accepted
+	Alert int     // dec: alert value when rejected
+	Err   string  // seterr: error text
+}
+
+var VerifSink func(VerifEvent)
+
+func verifEnc(hc *halfConn, data []byte, explicitIVLen int) {
+	if VerifSink == nil {
+		return
+	}
+	iv := append([]byte(nil), data[recordHeaderLen:recordHeaderLen+explicitIVLen]...)
+	VerifSink(VerifEvent{HC: uintptr(unsafe.Pointer(hc)), Ev: "enc", Seq: binary.BigEndian.Uint64(hc.seq[:]), Typ: int(data[0]), IV: iv, Len: len(data)})
+}
+
+func verifDec(hc *halfConn, seq [8]byte, typ byte, ok *bool, alertValue *alert) {
+	if VerifSink == nil {
+		return
+	}
+	VerifSink(VerifEvent{HC: uintptr(unsafe.Pointer(hc)), Ev: "dec", Seq: binary.BigEndian.Uint64(seq[:]), Typ: int(typ), OK: *ok, Alert: int(*alertValue)})
+}
+
+func verifCCS(hc *halfConn) {
+	if VerifSink == nil {
+		return
+	}
+	VerifSink(VerifEvent{HC: uintptr(unsafe.Pointer(hc)), Ev: "ccs"})
+}
+
+func verifSetErr(hc *halfConn, err error) {
+	if VerifSink == nil {
+		return
+	}
+	s := ""
+	if err != nil {
+		s = err.Error()
+	}
+	VerifSink(VerifEvent{HC: uintptr(unsafe.Pointer(hc)), Ev: "seterr", Seq: binary.BigEndian.Uint64(hc.seq[:]), Err: s})
+}
+
+// VerifHalfConns returns the identities of the receiving and sending half connections of c.
+func VerifHalfConns(c *Conn) (in, out uintptr) {
+	return uintptr(unsafe.Pointer(&c.in)), uintptr(unsafe.Pointer(&c.out))
+}
